@@ -1,0 +1,12 @@
+//go:build verif
+
+package vaxis
+
+// Hooks for property C18 (SGR codecs).  Add-only, guarded by the build tag
+// "verif": re-exports of unexported functions, no logic.
+
+// VerifC18ParseSGR re-exports parseSGR: applies params to a copy of st.
+func VerifC18ParseSGR(params [][]int, st Style) Style {
+	parseSGR(params, &st)
+	return st
+}
